@@ -217,3 +217,59 @@ where
     }
     JoinHandle { rx }
 }
+
+// ------------------------------------------------------------------ tokio::sync::mpsc shim
+
+/// `tokio::sync::mpsc` with one difference: `Sender::blocking_send` parks the calling
+/// simulated thread in the kernel (re-evaluated every simulated millisecond) instead of
+/// blocking the OS thread inside tokio. Everything else is tokio's own channel.
+pub mod tokio_mpsc {
+    pub use tokio::sync::mpsc::{Receiver, error};
+    use tokio::sync::mpsc::error::{SendError, TrySendError};
+
+    pub struct Sender<T>(tokio::sync::mpsc::Sender<T>);
+
+    impl<T> Clone for Sender<T> {
+        fn clone(&self) -> Self {
+            Sender(self.0.clone())
+        }
+    }
+    impl<T> std::fmt::Debug for Sender<T> {
+        fn fmt(&self, f: &mut std::fmt::Formatter<'_>) -> std::fmt::Result {
+            f.write_str("sim::mpsc::Sender")
+        }
+    }
+
+    pub fn channel<T>(buffer: usize) -> (Sender<T>, Receiver<T>) {
+        let (tx, rx) = tokio::sync::mpsc::channel(buffer);
+        (Sender(tx), rx)
+    }
+
+    impl<T> Sender<T> {
+        pub async fn send(&self, value: T) -> Result<(), SendError<T>> {
+            self.0.send(value).await
+        }
+        pub fn try_send(&self, value: T) -> Result<(), TrySendError<T>> {
+            self.0.try_send(value)
+        }
+        pub fn blocking_send(&self, value: T) -> Result<(), SendError<T>> {
+            super::block_until(|| self.0.capacity() > 0 || self.0.is_closed());
+            self.0.blocking_send(value)
+        }
+        pub fn is_closed(&self) -> bool {
+            self.0.is_closed()
+        }
+        pub fn capacity(&self) -> usize {
+            self.0.capacity()
+        }
+        pub fn max_capacity(&self) -> usize {
+            self.0.max_capacity()
+        }
+        pub fn same_channel(&self, other: &Self) -> bool {
+            self.0.same_channel(&other.0)
+        }
+        pub async fn closed(&self) {
+            self.0.closed().await
+        }
+    }
+}
